@@ -45,6 +45,18 @@ def _omegas(n, tier, seed):
 
 
 def run_chunk(chunk, tier, seed):
+    acc = _run_chunk(chunk, tier, seed)
+    sc_ = acc.extra.pop("_signconv", {})
+    if "signconv:raw" in sc_ and "signconv:canonical" in sc_:
+        # q ~ -q leaves the sign of the SE(3) rotational error open, but ONE convention must be used throughout
+        case = {"t": "signmix", "a": sc_["signconv:raw"], "b": sc_["signconv:canonical"]}
+        m = eval_case(case)
+        if m:
+            acc.violation(case, m)
+    return acc
+
+
+def _run_chunk(chunk, tier, seed):
     typ = chunk[0]
     acc = Acc(ID, signature)
     if typ == "single":
@@ -117,6 +129,9 @@ def _do(acc, case):
     msgs, ratio, nontriv, nops, classes = _eval(case)
     for c in classes:
         acc.cls(c)
+        if c in ("signconv:raw", "signconv:canonical"):
+            first = acc.extra.setdefault("_signconv", {})
+            first.setdefault(c, case)
     acc.transitions += nops
     if nontriv:
         acc.nontrivial += 1
@@ -200,6 +215,12 @@ def _eval_inner(case):
     t = case["t"]
     msgs = []
     classes = []
+    if t == "signmix":
+        ca = _eval_inner(case["a"])[4]
+        cb = _eval_inner(case["b"])[4]
+        if "signconv:raw" in ca and "signconv:canonical" in cb:
+            msgs.append("the SE(3) odometry error uses the raw sign of the error quaternion for %r but the w >= 0 representative for %r: no single convention for q ~ -q (the error function jumps where neither the measurement nor the estimate does)" % ({k: case["a"][k] for k in ("p1", "p2", "z")}, {k: case["b"][k] for k in ("p1", "p2", "z")}))
+        return msgs, 0.0, True, 2, []
     if t == "single":
         kind = case["kind"]
         e, n = c01.build_edge(case)
@@ -208,6 +229,16 @@ def _eval_inner(case):
         ref = _ref_error(case)
         ratio, cands = _cmp_error(kind, case["edge"], got, ref, sc, msgs)
         nops = 1
+        if kind == "SE3" and case["edge"] == "odo" and not msgs:
+            # which representative of the error quaternion (q ~ -q) did the implementation pick?
+            w = R.odometry_error_w(_stored(kind, case["p1"]), _stored(kind, case["p2"]), _stored(kind, case["z"]))
+            g6 = [float(x) for x in np.asarray(got).ravel()]
+            rv = max(abs(x) for x in ref[3:])
+            if abs(w) > 1e-6 and rv > 1e-6:
+                canon = ref if w > 0 else R.flip_rot(ref)
+                m_raw = max(abs(a - b) for a, b in zip(g6, ref)) <= TOL * sc
+                m_can = max(abs(a - b) for a, b in zip(g6, canon)) <= TOL * sc
+                classes.append("signconv:" + ("both" if (m_raw and m_can) else "raw" if m_raw else "canonical" if m_can else "neither"))
         nontriv = any(abs(x) > 1e-9 for x in ref)
         gotl = [float(x) for x in np.asarray(got).ravel()]
         for name, om in _omegas(n, case["tier"], case["seed"]):
